@@ -174,6 +174,7 @@ Shape(c) == \A i \in Idx(Expected(c)) : LET e == Expected(c)[i] IN
               /\ e.ob >= 0 /\ e.ib >= 0 /\ (e.orows = AnyRows \/ e.orows <= 3 * e.ob)
 
 \* ------------------------------------------------------------------------------------------ judging a recorded run
+\* o = [units, nhooks (recording hooks registered), hung];
 \* o.units[i] = [wire: [params, paramRows, paramBytes, inputs, inputRows, inputBytes, ticks, cancels, out, outRows,
 \*                      outBytes, outLogs, outErrs, outTokens, undecodable],
 \*               reports: seq of [src: "hook" | "alog" | ..., m, ib, ob, ir, orows, iby, oby],
@@ -184,11 +185,11 @@ InB(c, e, w) == w.params + (IF e.stray THEN 0 ELSE w.inputs) + (IF Dev_TicksUnco
 InRows(c, e, w) == w.paramRows + (IF e.stray THEN 0 ELSE w.inputRows)
 InBytes(c, e, w) == w.paramBytes + (IF e.stray THEN 0 ELSE w.inputBytes)
 \* a clause found false in a unit is reported as "<clause>@<method of the call the unit belongs to>"
-UnitBad(c, e, u) ==
+UnitBad(c, e, u, nhooks) ==
   LET w == u.wire  R == u.reports
       Cl(name, ok) == IF ok THEN {} ELSE {name \o "@" \o c.script[e.call].m} IN
        Cl("ReportedOnce", /\ Cardinality(Reports(u, "alog")) = (IF e.disp THEN 1 ELSE 0)
-                          /\ Cardinality(Reports(u, "hook")) = (IF e.hook THEN 1 ELSE 0)
+                          /\ Cardinality(Reports(u, "hook")) = (IF e.hook THEN nhooks ELSE 0)    \* one per registered hook
                           /\ \A j \in Idx(R) : R[j].src \in {"alog", "hook"})
   \cup Cl("OutBatchesMatchWire", \A j \in Idx(R) : R[j].ob = w.out)
   \cup Cl("OutRowsMatchWire", \A j \in Idx(R) : R[j].orows = w.outRows)
@@ -208,5 +209,5 @@ Conforms(c, o) ==
   LET E == Expected(c) IN
   IF Len(o.units) # Len(E) \/ \E i \in Idx(o.units) : ~o.units[i].complete \/ o.units[i].wire.undecodable > 0
   THEN {"UnitsAlign"}
-  ELSE UNION {UnitBad(c, E[i], o.units[i]) : i \in Idx(E)}
+  ELSE UNION {UnitBad(c, E[i], o.units[i], o.nhooks) : i \in Idx(E)}
 ==========================================================================================
